@@ -111,6 +111,36 @@ def match_known(known, pid, obname, inst):
     return None
 
 
+def cross_check(results):
+    """self-validation of the encoder on every run: models of symbolic paths that ARE executions (no cut loop, no contract-havocked callee,
+    no abstraction) are replayed on the real function under CPython and the engine's predicted return value / exception / scalar fields are
+    compared with what CPython computed"""
+    reps, engine_skipped = [], 0
+    for fr in results:
+        engine_skipped += fr.get("xskipped", 0) or 0
+        for x in fr.get("xchecks", []) or []:
+            x["contract_file"] = fr.get("contract_file")
+            reps.append(x)
+    out = {"paths_exported": len(reps), "paths_not_exportable": engine_skipped, "checked": 0, "agree": 0, "skipped": 0, "disagreements": []}
+    if not reps:
+        return out
+    import tempfile
+    with tempfile.NamedTemporaryFile("w", suffix=".json", delete=False) as tf:
+        json.dump(reps, tf, default=str)
+    try:
+        p = subprocess.run(["/venv/bin/python", os.path.join(ROOT, "native", "replay.py"), "--xcheck", tf.name], capture_output=True, text=True,
+                           timeout=600, cwd=ROOT)
+        res = json.loads(p.stdout.strip().splitlines()[-1])
+        for k in ("checked", "agree", "skipped"):
+            out[k] = res[k]
+        out["disagreements"] = [{"target": d["target"], "path": d["path"][:300], "what": d["what"]} for d in res["disagreements"][:10]]
+    except (subprocess.TimeoutExpired, IndexError, ValueError, KeyError) as e:
+        out["error"] = f"{type(e).__name__}: {e}"[:200]
+    finally:
+        os.unlink(tf.name)
+    return out
+
+
 def run_extra(pid, tier, seed):
     """bounded stand-ins and structural scans registered for the property (native or prover side)"""
     out = []
@@ -162,10 +192,12 @@ def main(argv=None):
             if prop == pid:
                 tasks.append((path, key, a.repo))
     results = []
+    os.environ.setdefault("PYVC_XCHECK", "1")      # export path models for the CPython cross-check of the encoder (self-validation)
     if tasks:
         with mp.Pool(min(16, len(tasks))) as pool:
             results = pool.map(verify_one, tasks, chunksize=1)
     extras = run_extra(pid, tier, seed)
+    selfval = cross_check(results)
     known = load_known()
     violations, undecided, errors, known_seen = [], [], [], []
     n_ob = n_dis = 0
@@ -267,6 +299,9 @@ def main(argv=None):
     for k, obname, inst in known_seen:
         kf_lines.append(f"KNOWN-FINDING: property={pid} {obname} {k.get('witness', '')}")
     wall = time.time() - t0
+    if selfval.get("disagreements") and tier == "thorough":
+        errors.append(f"encoder cross-check: CPython disagrees with the engine's prediction on {len(selfval['disagreements'])} path(s): "
+                      f"{selfval['disagreements'][0]['target']} {selfval['disagreements'][0]['what']}")
     if not results and not extras:
         errors.append("no obligations generated")
     if results and n_ob == 0:
@@ -294,6 +329,7 @@ def main(argv=None):
         "undecided": undecided[:20], "errors": errors[:20],
         "violations": violations[:20],
         "samples": [{"obligation_formula_prefix": s} for s in samples[:3]] or [{"note": "no solver-discharged sample"}],
+        "self_validation": selfval,
         "explanation": P.get("explanation", ""),
         "evaluations": max(1, sum(f.get("paths", 0) for f in functions)),
         "distinct_nontrivial": max(2, n_ob),
@@ -303,14 +339,17 @@ def main(argv=None):
     }
     ev = {"property_id": pid, "tier": tier, "seed": seed, "level": ev_level, "coverage": cov,
           "assumptions": COMMON_ASSUMPTIONS + P.get("assumptions", []), "wall_s": round(wall, 2), "violations": len(violations)}
-    os.makedirs(os.path.join(ROOT, "evidence"), exist_ok=True)
-    with open(os.path.join(ROOT, "evidence", f"{pid}.json"), "w") as f:
+    evdir = os.environ.get("VERIF_EVIDENCE_DIR") or os.path.join(ROOT, "evidence")    # experiments on changed trees write elsewhere
+    os.makedirs(evdir, exist_ok=True)
+    with open(os.path.join(evdir, f"{pid}.json"), "w") as f:
         json.dump(ev, f, indent=1, default=str)
     # ---------------- report
     print(f"[{pid}] tier={tier} functions={len(functions)} obligations={n_ob} discharged={n_dis} "
           f"paths={cov['paths']} solver={solver_time:.1f}s wall={wall:.1f}s")
     for l in kf_lines:
         print(l)
+    if selfval.get("disagreements"):
+        print(f"NOTE: encoder cross-check disagrees on {len(selfval['disagreements'])} path(s) (see evidence.coverage.self_validation)")
     for u in undecided[:10]:
         print("UNDECIDED:", u)
     for e in errors[:10]:
